@@ -172,6 +172,8 @@ pub fn format_general(
     alternate_form: bool,
     always_shows_fract: bool,
 ) -> String {
+    // as for C's %g, a precision of zero is treated as one
+    let precision = precision.max(1);
     match magnitude {
         magnitude if magnitude.is_finite() => {
             let r_exp = format!("{:.*e}", precision.saturating_sub(1), magnitude);
